@@ -163,6 +163,13 @@ def run_property(prop, tier='quick', repo='/repo', quiet=False, write_evidence=T
         if code == 2:
             print('check %s: machinery fault, no verdict: %s' % (prop, extra.get('error')))
             return 2, []
+        from . import witness
+        wcode, winfo = witness.run(prop, repo)
+        if wcode == 2:
+            print('check %s: machinery fault, no verdict: %s' % (prop, winfo.get('error')))
+            return 2, []
+        all_records.extend(winfo.pop('records', []))
+        extra.update(winfo)
         if hasattr(mod, 'thorough'):
             code, more = mod.thorough(repo)
             if code == 2:
